@@ -196,4 +196,19 @@ def make_gen():
     return genfunc()
 
 
+def _make_dup():
+    class Dup:
+        pass
+
+    Dup.__qualname__ = "Dup"
+    return Dup
+
+
+# two distinct classes with one module and qualified name (a class factory called twice, a module reloaded between two
+# observations): only for the inference space (C04/C05) - they cannot be told apart by name, so they never reach stores or stubs
+Dup1 = _make_dup()
+Dup2 = _make_dup()
+Dup = Dup2
+
+
 CLASSES = [AH1, AH2, AH3, AH4, AH5, AH6, SKey, Registry, TimeoutError, Warning, A, B, C, D, M, R1, R2, X1, X2, X3, X4, X5, X6, Outer, Outer.Inner, Outer.Inner.Deep, E1, E2, E3, E4, E5, E6]
